@@ -188,7 +188,7 @@ def ovSet (cn : CNode) : RegSet :=
   let ov1 := if n.callsTo.isSome then ov0 ||| returnAddrSet else ov0
   match ecallSignature cn with
   | some (_, rets) => ov1 ||| rets
-  | none => if n.isEcall && (knownEcall cn).isNone then ov1 ||| RegSet.ofList [10, 11] else ov1
+  | none => if n.isEcall then ov1 ||| RegSet.ofList [10, 11] else ov1
 
 /-- `rule_forget_overwritten_registers` -/
 def ruleForgetOverwritten (cn : CNode) (memOut : AMap MemLoc) : AMap MemLoc :=
@@ -219,8 +219,9 @@ def preRules (cn : CNode) (inReg : AMap Reg) : AMap Reg :=
   let out1 := match ecallSignature cnIn with
     | some (_, rets) => (RegSet.toList rets).foldl AMap.erase out1
     | none =>
-      -- unknown call number: every environment call returns in a0/a1
-      if n.isEcall && (knownEcall cnIn).isNone then [10, 11].foldl AMap.erase out1 else out1
+      -- no signature (unknown call number, or one the table does not list): every environment
+      -- call returns in a0/a1
+      if n.isEcall then [10, 11].foldl AMap.erase out1 else out1
   let out2 := insertGen out1 n.genRegValue
   let out3 := if n.isHandlerFunctionEntry then AMap.extend out2 (originals allWritableSet) else out2
   let out4 := if n.isFunctionEntry then AMap.extend out3 (originals calleeSavedSet) else out3
